@@ -367,6 +367,24 @@ theorem C14_terms_single_segment_exact_any_schedule (p : TermsP) (sub : Req) (hs
   rw [e, h.1, h.2, finalize_collect_pv]
   exact ⟨rfl, rfl⟩
 
+/-- **The request tree decomposes.**  Several top-level aggregations are collected, cut, merged and
+finalised independently, and a filter parent hands its sub-request the matching documents of every
+segment: the final result of `both a b` is the pair of the final results of `a` and `b`, the final
+result of `filter{sub}` is the total match count and the final result of `sub` over the filtered
+partition.  Hence every single-node theorem (bounds, `_key`-order exactness, single-segment
+exactness, composite eviction) applies to each top-level node of a request and below filters. -/
+theorem C14_request_tree_decomposes (a b : Req) (f : Field) (v : Int) (sub : Req) (parts : List (List Doc)) :
+    finalize (M := M) (.both a b) (mergeFruits (.both a b) (parts.map (collectSeg (.both a b))))
+        = (finalize a (mergeFruits a (parts.map (collectSeg a))), finalize b (mergeFruits b (parts.map (collectSeg b))))
+      ∧ finalize (M := M) (.filter f v sub) (mergeFruits (.filter f v sub) (parts.map (collectSeg (.filter f v sub))))
+        = ((parts.map (fun q => (q.filter (filterMatch f v)).length)).foldl (· + ·) 0,
+           finalize sub (mergeFruits sub ((parts.map (fun q => q.filter (filterMatch f v))).map (collectSeg sub)))) := by
+  constructor
+  · rw [C14_mergeFruits_eq_fold, C14_mergeFruits_eq_fold, C14_mergeFruits_eq_fold, fold_both]
+    rfl
+  · rw [C14_mergeFruits_eq_fold, C14_mergeFruits_eq_fold, fold_filter]
+    rfl
+
 /-- the hypothesis `min_doc_count ≤ 1` of the two theorems above is needed: the cut happens before the
 `min_doc_count` filter.  Segment 1 holds keys 1 (one document) and 2 (two documents) and keeps key 1
 only; segment 2 holds key 2 once.  With `min_doc_count = 2` the direct computation shows key 2 with
@@ -883,6 +901,11 @@ example : @Eq (List (Int × Nat × List (Int × Nat × Unit)) × Nat × Nat)
         (.leaf (collectSegFull (M := Int) (.terms (TermsP.ofRequest 1 Option.none (some 1) (some 1) Option.none (some .keyAsc)) (.composite [⟨0, 9, false⟩] 1 Option.none .none))
           [[(1, [7]), (0, [2])], [(1, [9]), (0, [0])]]))).eval (merge _) (empty _)))
     ([(7, 3, [(1, 1, ())])], 2, 2) := by decide +kernel
+/-- two top-level nodes (a cut `_key`-ordered terms and a filter) over two segments: each is finalised on its own -/
+example : finalize (M := Int) (.both (.terms ⟨0, Option.none, 1, 1, 1, .keyAsc⟩ .none) (.filter 0 1 .none))
+    (mergeFruits _ ([[[(0, [3])], [(0, [1])]], [[(0, [2])], [(0, [1])]]].map
+      (collectSeg (M := Int) (.both (.terms ⟨0, Option.none, 1, 1, 1, .keyAsc⟩ .none) (.filter 0 1 .none)))))
+    = (([(1, 2, ())], 2, 2), (2, ())) := by decide +kernel
 example : (compTrim 1 Option.none (compTrim 2 Option.none (KMap.merge (fun a _ => a) (KMap.single 3 (1, ()))
     (KMap.merge (fun a _ => a) (KMap.single 1 (1, ())) (KMap.single 2 (1, ())))))).entries = [(1, 1, ())] := by decide +kernel
 example : [0, 10, 20].Pairwise (fun a b : Int => a < b) := by decide
